@@ -143,6 +143,21 @@ func main() {
 			}
 		}()
 		explanation := run(ctx)
+		if *tier == "thorough" {
+			results := replaySeeds(*verif, abs, *prop)
+			fired, applied := 0, 0
+			for _, r := range results {
+				if r.Skipped == "" {
+					applied++
+					if r.Fired {
+						fired++
+					}
+				}
+			}
+			ctx.Extra = map[string]any{"seeded_total": len(results), "seeded_applied": applied, "seeded_fired": fired, "seeded_results": results}
+			ctx.Stats["seeded_total"] = len(results)
+			ctx.Stats["seeded_fired"] = fired
+		}
 		return ctx.Finish(*verif, explanation, known)
 	}()
 	os.Exit(code)
